@@ -293,7 +293,7 @@ def seal_extra(prop, tier, seed):
                                 ops.append(dict(op="Rec", t=t, present=list(sub), wrapper=wr, withState=ws, rot=False, longNonce=True))
                             if wr:
                                 ops.append(dict(op="Rec", t=t, present=list(sub), wrapper=wr, withState=ws, rot=True))
-        for n in ("authorize", "token", "rotate", "rotateNamed", "dial", "dialtoken"):
+        for n in ("authorize", "token", "rotate", "rotateNamed", "dial", "dialtoken", "tokenRefused"):
             for ws in (False, True):
                 ops.append(dict(op="Flow", name=n, withState=ws))
         out.append(dict(id="x12_matrix", ops=ops))
@@ -311,7 +311,7 @@ def seal_family(prop):
         gen=[dict(module="SealGen.tla", cfg="SealGen_a.cfg", depth=12, num=dict(quick=60, thorough=1500), tag="a", beh_cfg={})],
         extra=seal_extra,
         rule={"C11": "Crypt lines: sender pair x receiver current/previous pair (matching, one component changed, random) x both sides x five message types x tamper class drawn by TLC, plus driver-built exhaustive single-bit flips and truncations of one envelope per message type; every outcome judged by the symbolic Dec of Seal.tla",
-              "C12": "Rec lines: the full matrix record type x optional-field subset x wrapper on/off (stored bytes inspected, reload with same / no / other wrapper, transplant of a sealed field from a sibling record); Flow lines: operator-authorised, token and rotation flows with storage wrappers on both sides, every message handed to storage searched for the run's secrets"},
+              "C12": "Rec lines: the full matrix record type x optional-field subset x wrapper on/off (stored bytes inspected, reload with same / no / other wrapper, transplant of a sealed field from a sibling record); Flow lines: operator-authorised, token, refused-second-token and rotation flows with storage wrappers on both sides, every message handed to storage searched for the run's secrets, at the time of the Store call and again at the end of the flow (a write-behind back end serialises the object it was handed later)"},
         assumptions=["AES-GCM / X25519 strength is trusted; what is checked is which key, key id and associated data the code uses",
                      "secrets are searched as raw byte strings in the marshalled messages handed to Storage.Store"],
     )
